@@ -678,6 +678,12 @@ func (node *Node) AsMapString(ctx *Context, vp unsafe.Pointer) error {
 		knode := NewNode(next)
 		key, _ := knode.AsStr(ctx)
 		val := NewNode(PtrOffset(next, 1))
+		if val.IsNull() {
+			/* null stores the zero value, like any other map element */
+			m[key] = ""
+			next = PtrOffset(val.cptr, 1)
+			continue
+		}
 		m[key], ok = val.AsStr(ctx)
 		if !ok {
 			if gerr == nil {
@@ -856,6 +862,11 @@ func (node *Node) AsSliceString(ctx *Context, vp unsafe.Pointer) error {
 	var gerr error
 	for i := 0; i < size; i++ {
 		val := NewNode(next)
+		if val.IsNull() {
+			/* null leaves the element as it is, like any other string destination */
+			next = PtrOffset(val.cptr, 1)
+			continue
+		}
 		ret, ok := val.AsStr(ctx)
 		if !ok {
 			if gerr == nil {
